@@ -30,9 +30,9 @@ from ..type import (
     is_non_null_type,
     is_object_type,
     is_scalar_type,
-    is_specified_directive,
     is_specified_scalar_type,
     is_union_type,
+    specified_directives,
     specified_scalar_types,
 )
 
@@ -356,8 +356,10 @@ def map_schema_config(
 
     mapped_directives: list[GraphQLDirective] = []
     for directive in schema_config["directives"]:
-        if is_specified_directive(directive):
-            # Builtin directives cannot be mapped.
+        if any(directive is specified for specified in specified_directives):
+            # Builtin directives cannot be mapped. (A directive defined in the
+            # schema under the name of a specified directive is not builtin and
+            # may refer to types of the schema.)
             mapped_directives.append(directive)
             continue
         mapped_directives.append(
